@@ -7,6 +7,14 @@ def unsafe_decode(string):
 
 def decode(string):
   validate_encoded(string)
+  # the list is split at the commas: each element must be an oriented name
+  for elem in string.split(","):
+    if not re.match(r"^[!-)+-<>-~][!-~]*[+-]\Z", elem):
+      raise gfapy.FormatError(
+        "{} is not a valid list of GFA1 segment names ".format(repr(string))+
+        "and orientations\n"+
+        "(the element {} is not a segment name followed by + or -)".format(
+          repr(elem)))
   return unsafe_decode(string)
 
 def validate_encoded(string):
